@@ -10,7 +10,7 @@
    call_result packages: the recorded constraint (cframe), the ancilla counter, G >= 0 in every branch
    (including the ones that warn), and pen_rel unless the library warned "cannot be satisfied". *)
 From QV.Model Require Import Base Matrix Arith Expr Extrema Sat PCBO.
-From QV.Proofs Require Import BaseProofs KeyProofs ArithProofs PenaltyArith PCBOProofs.
+From QV.Proofs Require Import BaseProofs KeyProofs ArithProofs LabelProofs PenaltyArith PCBOProofs AncProofs.
 Open Scope Q_scope.
 
 (* one constraint, any of the six relations, every branch of the implementation (shortcut forms,
@@ -52,6 +52,23 @@ Print Assumptions C02_sequence.
 Theorem C02_ancilla_blocks : forall m cs m', seq_result m cs m' -> (anc m <= anc m')%nat.
 Proof. exact seq_result_anc. Qed.
 Print Assumptions C02_ancilla_blocks.
+
+(* every ancilla label present in the model is below the counter -- syntactically, with no hypothesis on P's values;
+   AB a i  reads: if i is the label '__a j' then j < a;   LP Q t: every label occurring in a key of t satisfies Q *)
+Theorem C02_ancilla_bound : forall r m Pin lam lt b m' w t, add_constraint r m Pin lam lt b = Ok (m', w, t) ->
+  LP (AB (anc m)) (tm m) -> LP (AB (anc m)) Pin -> LP (AB (anc m')) (tm m') /\ (anc m <= anc m')%nat.
+Proof. exact add_constraint_AB. Qed.
+Print Assumptions C02_ancilla_bound.
+Theorem C02_sequence_bound : forall cs m m', run_calls m cs = Ok m' -> LP (AB (anc m)) (tm m) ->
+  Forall (fun c => no_anc (cc_P c)) cs -> LP (AB (anc m')) (tm m') /\ (anc m <= anc m')%nat.
+Proof. exact run_calls_AB. Qed.
+Print Assumptions C02_sequence_bound.
+(* hence what one call adds does not read ancillas created later: the penalties of a sequence can be minimised
+   independently over their own blocks (used by C08_sequence) *)
+Theorem C02_later : forall m m' lam G, step_ok m m' lam G -> ~ lam == 0 ->
+  LP (AB (anc m')) (tm m) -> LP (AB (anc m')) (tm m') -> indep (later (anc m')) G.
+Proof. exact step_later. Qed.
+Print Assumptions C02_later.
 
 (* the arithmetic facts the branches rest on *)
 Theorem C02_and_gadget : forall a b c, is_bool a -> is_bool b -> is_bool c ->
